@@ -287,6 +287,33 @@ def run(ctx):
     worlds += fixed_worlds()
     worlds += gap_worlds()
     run_suite(ctx, 'match.addressing', worlds, known=known, chunk=150)
+    # a snapshot directory reached through a symbolic link, not yet there at the test's first call (the first call
+    # creates it): the calls of a test keep counting 1, 2, 3 whatever spelling of the directory the library settles on
+    # (implementation only: the model's file system has no links)
+    from gen import cfg_line
+    sym = []
+    for k, (d, kinds) in enumerate([('lnk/snaps', 'snap'), ('lnk/deep/er/snaps', 'snap'), ('lnk/snaps', 'mixed'), ('lnk', 'snap')]):
+        w = World('c03-symlink-%d' % k)
+        w.add(mode_line(False, ''))
+        w.add('fssymlink %s %s' % (core.hx('real/store'), core.hx('lnk')))
+        w.add(cfg_line(1, d))
+        vals = [b'first', b'second', b'third']
+        for t in (1, 2, 3):
+            w.add('begin %d %s' % (t, core.hx(b'TestSym')))
+            for j, v in enumerate(vals):
+                if kinds == 'mixed' and j == 1:
+                    op, val = 'sasnap', v
+                else:
+                    op, val = 'snap', v
+                def exp(line, raw, ww, t=t, v=v):
+                    ks = [e for e, _ in line.events]
+                    if t == 1:
+                        return None if ks == ['L'] and len(line.writes) == 1 else 'the recording call of %r: expected one log and one written file, got %r w=%r' % (v, line.events, line.writes)
+                    return suites.exp_silent(line, raw, ww)
+                w.add('%s 1 %d %s' % (op, t, core.hx(val)), ('kth-call-addresses-slot-k-behind-a-symlink', exp))
+            w.add('end %d' % t)
+        sym.append(w)
+    run_suite(ctx, 'match.addressing.symlink', sym, known=known, use_model=False)
     # "... or run concurrently": two tests sharing a file, every schedule of their lookups and rewrites (the explorer of
     # C06 on the pairs in which a slot is created or rewritten next to another test's slot): each slot ends up holding
     # what its own test stored, pre-existing entries keep their places
